@@ -50,7 +50,8 @@ class ClassRef:
 
 _SAFE_METHODS = {
     str: {'upper', 'lower', 'replace', 'join', 'strip', 'lstrip', 'rstrip', 'split', 'startswith', 'endswith',
-          'format', 'count', 'title', 'capitalize'},
+          'format', 'count', 'title', 'capitalize', 'partition', 'rpartition', 'rsplit', 'isdigit', 'isalpha', 'islower', 'isupper',
+          'find', 'index', 'splitlines'},
     dict: {'keys', 'values', 'items', 'get', 'copy'},
     list: {'copy', 'index', 'count'},
     tuple: {'index', 'count'},
@@ -61,7 +62,7 @@ _SAFE_METHODS = {
 _SAFE_BUILTINS = {'sorted': sorted, 'list': list, 'set': set, 'dict': dict, 'tuple': tuple, 'len': len, 'str': str,
                   'int': int, 'range': range, 'min': min, 'max': max, 'sum': sum, 'frozenset': frozenset,
                   'abs': abs, 'bool': bool, 'reversed': lambda x: list(reversed(x)), 'enumerate': lambda x: list(enumerate(x)),
-                  'zip': lambda *a: list(zip(*a)), 'any': any, 'all': all, 'ord': ord, 'chr': chr}
+                  'zip': lambda *a: list(zip(*a)), 'any': any, 'all': all, 'ord': ord, 'chr': chr, 'divmod': divmod, 'float': float}
 
 
 class ConstEval:
